@@ -44,6 +44,11 @@ func verifIPFIXDatagram(kind, size int) []byte {
 		w.u8(uint8(sl))
 		w.bytes(verifNondetBytes(sl))
 	}
+	if kind == dgPartial {
+		w.u16(300)
+		w.u16(8)
+		w.bytes(verifNondetBytes(4))
+	}
 	n := w.o
 	w.b[lenAt], w.b[lenAt+1] = uint8(n>>8), uint8(n)
 	return w.b[:n]
@@ -91,7 +96,7 @@ func verifIPFIXWorker(c13 bool) {
 	bodies, want, orig := make([][]byte, N), make([][]byte, N), make([][]byte, N)
 	decoded, publish := make([]bool, N), make([]bool, N)
 	for i := 0; i < N; i++ {
-		bodies[i] = verifIPFIXDatagram(verifCase(dgKinds), size)
+		bodies[i] = verifIPFIXDatagram(verifCase(dgKindsTmpl), size)
 		orig[i] = append([]byte(nil), bodies[i]...)
 		want[i], decoded[i], publish[i] = verifIPFIXReference(bodies[i], i, refCache)
 		ipfixUDPCh <- IPFIXUDPMsg{verifExporter(i), bodies[i]}
